@@ -766,6 +766,12 @@ Hnextread(int32 access_id, uint16 tag, uint16 ref, int origin)
             HGOTO_DONE(SUCCEED);
         } /* end if */
         else {
+            /* the special element could not be opened (e.g. its coder is not available): the caller still owns */
+            /* the access record and will Hendaccess() it; leave a plain record behind, attached to the file again, */
+            /* so that no special endaccess runs on special information that does not exist */
+            file_rec->attach++;
+            access_rec->special      = 0;
+            access_rec->special_info = NULL;
             HGOTO_DONE(FAIL);
         } /* end if */
     }
